@@ -1,8 +1,9 @@
 """C13  Method cross-references are exact and symmetric   (engine E2: bounded structure enumeration).
 
 Space: the three-class / two-DEX model of gen/xrefmodels.xm3; the body of A.m<k> is every sequence of <= 2 (thorough: <= 3)
-items of the reference alphabet (10 invoke opcodes x 7 targets, 8 field opcodes x 5 fields, const-string(/jumbo) x 3 strings,
-new-instance / const-class x 5 types, 3 other type-referencing instructions), plus every item of the extended alphabet (all
+items of the reference alphabet (10 invoke opcodes x 7 targets, 8 field opcodes x 7 fields, const-string(/jumbo) x 4 strings,
+new-instance / const-class x 5 types, 3 other type-referencing instructions, 2 forms of a switch / array-data payload placed
+in the middle of the method with a goto over it), plus every item of the extended alphabet (all
 28 field opcodes, A.n as target) alone.  A.n and D.r (second DEX) have fixed bodies calling the same targets, so resolution is
 shared across methods and across DEX files.  Each model is written by gen/dexgen, analysed by the real
 DEX / Analysis.add / create_xref, and judged against ref/xref.py (which is cross-checked against a byte-level sweep).
@@ -12,7 +13,7 @@ from checks import xref_common as C
 
 PROPERTY = "C13"
 LEVEL = "exploration"
-RULE = ("every body of <= 2 (thorough <= 3) items over a 129-item reference alphabet + 110 extended single items, one generated "
+RULE = ("every body of <= 2 (thorough <= 3) items over a 149-item reference alphabet + 150 extended single items, one generated "
         "program per body; non-trivial = the body contains at least one invoke; distinct by construction (the sequence is the "
         "enumeration index)")
 ASSUMPTIONS = ["invoke on an array-of-primitive receiver is skipped by design and is not in the alphabet",
@@ -31,7 +32,7 @@ MANIFEST = {
             "class-level xrefs / get_call_graph are compared edge by edge, offset by offset and by object identity with the "
             "relation derived from the generating model; complete for the stated bound.",
     "note": "Trusted: gen/dexgen.py, gen/dalvik.py, ref/xref.py. Receivers that are arrays of primitives are out of scope. "
-            "Length-3 bodies are analysed 129 at a time as sibling methods of one class.",
+            "Length-3 bodies are analysed 149 at a time as sibling methods of one class.",
 }
 
 
@@ -73,7 +74,8 @@ def finalize(ctx, acc):
     from gen import xrefmodels as X
     missing = [op for op in X.INVOKE_OPS if not x.get("invoke:" + op)]
     need = ["target:internal", "target:internal:cross-dex", "target:internal-undefined", "target:self", "target:external",
-            "target:array-object", "target:array-internal", "external_stubs_shared_by_several_call_sites", "callgraph_edges"]
+            "target:array-object", "target:array-internal", "external_stubs_shared_by_several_call_sites", "callgraph_edges",
+            "invoke behind a mid-method payload"]
     missing += [k for k in need if not x.get(k)]
     if missing:
         acc.harness_error("vacuity: never exercised: %r" % missing)
